@@ -148,7 +148,7 @@ func main() {
 		machinery("cmd/c19c was built without the vsched overlay (use ./vcheck C19 or cmd/c19c/build.sh)")
 	}
 	if budget == 0 {
-		budget = pickI(75, 600)
+		budget = pickI(100, 660)
 	}
 	start := time.Now()
 	rep := report{Tier: tier, Exhaustive: true}
@@ -170,7 +170,7 @@ func main() {
 		}
 	}
 	shards := pickI(4, 8)
-	deadlineB := start.Add(time.Duration(budget) * time.Second * 2 / 5).UnixMilli()
+	deadlineB := start.Add(time.Duration(budget) * time.Second * time.Duration(pickI(3, 2)) / 5).UnixMilli()
 	deadline := start.Add(time.Duration(budget) * time.Second).UnixMilli()
 
 	run := func(mkJobs func(p plan) []explore.Job) map[string]*explore.Result {
